@@ -67,15 +67,18 @@ def trimStartMatches (p : List Char) (s : List Char) : List Char :=
 /-- `str::trim_end_matches(')')` -/
 def trimEndParen (s : List Char) : List Char := (s.reverse.dropWhile (· == ')')).reverse
 
+/-- ASCII part of `char::is_whitespace` (`str::trim`) -/
+def isWs (c : Char) : Bool := c == ' ' || (9 ≤ c.toNat && c.toNat ≤ 13)
+
 def trimSpaces (s : List Char) : List Char :=
-  ((s.dropWhile (· == ' ')).reverse.dropWhile (· == ' ')).reverse
+  ((s.dropWhile isWs).reverse.dropWhile isWs).reverse
 
 /-- `str::parse::<uN>()`: optional `+`, at least one digit, digits only, value ≤ max -/
 def parseNat (max : Nat) (s : List Char) : Option Nat :=
-  let ds := match s with | '+' :: r => r | s => s
+  let ds := if s.head? == some '+' then s.tail else s
   if ds.isEmpty || !ds.all Char.isDigit then none
   else
-    let v := ds.foldl (fun a c => a * 10 + (c.toNat - '0'.toNat)) 0
+    let v := Nat.ofDigitChars 10 ds 0
     if v ≤ max then some v else none
 
 def usizeMax : Nat := 2 ^ 64 - 1
@@ -93,6 +96,18 @@ def precScale (params : List Char) : Nat × Nat :=
   (p, s)
 
 /-- `parse_data_type` -/
+def DataType.canon : DataType → String
+  | .integer => "integer" | .smallint => "smallint" | .bigint => "bigint" | .unsigned => "unsigned"
+  | .numeric p s => s!"numeric:{p}:{s}" | .decimal p s => s!"decimal:{p}:{s}"
+  | .float p => s!"float:{p}" | .real => "real" | .double => "double"
+  | .character n => s!"char:{n}"
+  | .varchar none => "varchar:none" | .varchar (some n) => s!"varchar:{n}"
+  | .clob => "clob" | .name => "name" | .boolean => "boolean" | .date => "date"
+  | .time tz => if tz then "time:1" else "time:0"
+  | .timestamp tz => if tz then "timestamp:1" else "timestamp:0"
+  | .interval _ _ => "interval" | .blob => "blob" | .bit _ => "bit"
+  | .userDefined _ => "userdefined" | .null => "null"
+
 def parseDataType (text : List Char) : Option DataType :=
   let s := text.map Char.toUpper
   if s == "INTEGER".toList then some .integer
